@@ -35,7 +35,7 @@ PROPS = {
     },
     'C03': {
         'verus': [('coll', [H, 'drain_one'])],
-        'kani': ['future_in_span_final_poll', 'stream_in_span_last_call', 'sink_in_span_close'],
+        'kani': ['future_in_span_final_poll', 'stream_in_span_last_call', 'sink_in_span_close', 'sink_in_span_close_err', 'sink_in_span_close_pending'],
         'assumptions': [LOCK, COLL_ENV, COLL_STD, REPORTER,
                         'NOT decided: the clause "every span that finished before it on any thread" needs a consistent cut across threads, which the sequential drain of receivers does not establish (DESIGN.md D8); proved per batch: what a commit releases is everything buffered so far plus this batch, in one report call, and nothing afterwards'],
     },
@@ -105,8 +105,8 @@ PROPS = {
     },
     'C07': {
         'verus': [('local', '*'), ('spsc', ['Sender::send', 'Sender::force_send', 'Receiver::try_recv', 'bounded']), ('jaeger', '*')],
-        'kani': ['span_of_no_trace', 'noop_span_never_calls_closures', 'no_local_parent_is_inert', 'root_without_reporter_is_noop', 'empty_parent_set', 'root_lifecycle', 'cancel_root', 'local_parent_guard_scope'],
-        'assumptions': [KANI_ENV, 'panic-freedom is proved per function / per state class listed; NOT covered: calls issued from inside property closures (re-entrancy through the RefCell of the local span stack), deadlock freedom in general, and calls made while thread-local storage is being torn down (Kani has no TLS destructors)',
+        'kani': ['span_of_no_trace', 'noop_span_never_calls_closures', 'no_local_parent_is_inert', 'root_without_reporter_is_noop', 'empty_parent_set', 'root_lifecycle', 'cancel_root', 'local_parent_guard_scope', 'reentrant_property_closure', 'plain_property_closure', 'guard_beyond_scope_limit'],
+        'assumptions': [KANI_ENV, 'panic-freedom is proved per function / per state class listed; calls issued from inside property closures: harness reentrant_property_closure (fails: known finding D6) with its control plain_property_closure; NOT covered: deadlock freedom in general, and calls made while thread-local storage is being torn down (Kani has no TLS destructors)',
                         'non-blocking: Sender::send / force_send terminate (Verus decreases) and take no lock'],
     },
     'C11': {
@@ -127,7 +127,7 @@ PROPS = {
     },
     'C14': {
         'verus': [],
-        'kani': ['stream_in_span_last_call', 'stream_in_span_item_call', 'sink_in_span_close', 'sink_in_span_send', 'sink_in_span_flush', 'sink_in_span_ready', 'local_parent_guard_scope'],
+        'kani': ['stream_in_span_last_call', 'stream_in_span_item_call', 'sink_in_span_close', 'sink_in_span_close_err', 'sink_in_span_close_pending', 'sink_in_span_send', 'sink_in_span_flush', 'sink_in_span_ready', 'local_parent_guard_scope'],
         'assumptions': [KANI_ENV, 'K7: fastrace-futures/src/lib.rs is compiled inside the fastrace crate with the Stream/Sink traits re-declared (futures 0.3 signatures) instead of linking futures-core/futures-sink',
                         'per-call contract, complete per call'],
     },
